@@ -136,33 +136,34 @@ def rule_operators(ctx):
 
 
 def rule_length_guard(ctx):
+    """decided on length classes: the operands' lengths are touched only through ==/!= comparisons with each other and with 1,
+    so the five orderings (equal, other == 1, self == 1, both different and > 1 either way) cover every pair of lengths"""
     pkg = ctx.pkg
+    a, b = mk_fn("siglen", [S("self.signal")]), mk_fn("siglen", [S("other.signal")])
     for cls in CLASSES:
         for meth in ["__add__", "__sub__", "__rsub__", "__mul__"] + (["__gt__", "__lt__"] if cls == "electrical_signal" else []):
             m = pkg.find_method("typing", cls, meth)
-            it = Interp(pkg, self_class=cls, param_classes={"other": cls}, assumptions={"self.noise": "none", "other.noise": "none"})
-            outs = it.run(m)
-            a, b = mk_fn("siglen", [S("self.signal")]), mk_fn("siglen", [S("other.signal")])
-            want = mk_fn("and", [mk_fn("ne", [a, b]), mk_fn("ne", [b, Form.num(1)])])
-            ok = None
-            for o in outs:
-                if o.kind == "raise" and o.conds:
-                    tnode = _find_if(m, o.conds[-1][0])
-                    if tnode is None:
-                        continue
-                    st = State({"self": it._top_param(m, "self", None), "other": it._top_param(m, "other", None)})
-                    v = Interp(pkg, self_class=cls, param_classes={"other": cls}).eval(tnode.test, st, m, 0)
-                    if v == want or v == mk_fn("and", [mk_fn("ne", [b, a]), mk_fn("ne", [b, Form.num(1)])]):
-                        ok = (o, tnode)
-            first_ret = next((o for o in outs if o.kind == "return"), None)
-            if ok is None:
-                ctx.violation("C01.7", m, m.node, f"{cls}.{meth}: length guard", "no `self.len() != other.len() and other.len() != 1 -> raise` guard: operands of different lengths are not rejected")
-            elif ok[0].exc != "ValueError":
-                ctx.violation("C01.7", m, ok[1], f"{cls}.{meth}: length guard", f"raises {ok[0].exc}, documented ValueError")
-            elif first_ret is not None and ok[1].lineno > first_ret.node.lineno:
-                ctx.violation("C01.7", m, ok[1], f"{cls}.{meth}: length guard", "guard is placed after a return: arithmetic happens first")
+            probs, where = [], m.node
+            for la, lb in ((5, 3), (3, 5), (1, 5), (5, 5), (5, 1), (1, 1)):
+                it = Interp(pkg, self_class=cls, param_classes={"other": cls}, assumptions={"self.noise": "none", "other.noise": "none"},
+                            valuation=[(a, la), (b, lb)])
+                outs = it.run(m)
+                rets = [o for o in outs if o.kind == "return"]
+                must_raise = la != lb and lb != 1
+                if must_raise:
+                    if rets:
+                        probs.append(f"lengths {la} and {lb} are not rejected")
+                        where = rets[0].node
+                    elif not outs or outs[-1].exc != "ValueError":
+                        probs.append(f"lengths {la} and {lb} raise {outs[-1].exc if outs else None}, documented ValueError")
+                        where = outs[-1].node if outs else m.node
+                elif not rets:
+                    probs.append(f"lengths {la} and {lb} (compatible) are rejected")
+                    where = outs[-1].node if outs else m.node
+            if probs:
+                ctx.violation("C01.7", m, where, f"{cls}.{meth}: length guard", "no `self.len() != other.len() and other.len() != 1 -> ValueError` behaviour: " + "; ".join(probs[:3]))
             else:
-                ctx.holds("C01.7", m, ok[1], f"{cls}.{meth}: length guard", "len differ and other.len != 1 -> ValueError, before the arithmetic")
+                ctx.holds("C01.7", m, m.node, f"{cls}.{meth}: length guard", "lengths differ and other.len != 1 -> ValueError; equal lengths or a one-sample operand accepted (6 length classes)")
 
 
 def _find_if(fi, src):
@@ -180,46 +181,103 @@ def _rename(node, a, b):
     return n
 
 
+def _mirror(v):
+    """the value with every occurrence of the local `signal` replaced by `noise`"""
+    from ..absint import VecV
+    from ..forms import subst_value
+
+    def fn(a):
+        if a[0] == "sym" and (a[1] == "signal" or a[1].startswith("signal.")):
+            return Form.sym("noise" + a[1][6:])
+        return None
+    if isinstance(v, VecV):
+        return VecV([_mirror(i) for i in v.items])
+    if isinstance(v, TupleV):
+        return TupleV([_mirror(i) for i in v.items], v.kind)
+    return subst_value(v, fn)
+
+
+def _stored_layout(it, cls):
+    """(signal, noise) values the constructor ends up storing on the analysed path"""
+    if cls == "optical_signal":
+        recs = [r for r in it.calls if r.callee and r.callee.endswith("_SuperV>.__init__") and r.depth == 0]
+        if len(recs) != 1:
+            return None
+        r = recs[0]
+        names = ["signal", "noise", "dtype"]
+        vals = dict(zip(names, r.args))
+        vals.update({k: v for k, v in r.kwargs.items() if k in names})
+        return vals.get("signal"), vals.get("noise", Const(None)), r.node
+    sig = [x for x in it.store_log if x[5] == 0 and x[2][0] == "attr" and x[2][2] == "signal"]
+    noi = [x for x in it.store_log if x[5] == 0 and x[2][0] == "attr" and x[2][2] == "noise"]
+    if len(sig) != 1 or len(noi) != 1:
+        return None
+    return sig[0][3], noi[0][3], sig[0][1]
+
+
 def rule_ctor_symmetry(ctx):
+    """the constructors are interpreted for every layout class of the input (ndim, first-axis length, n_pol, noise given or not);
+    shapes are touched only through ==/!= and the comparisons of ndim/shape[0] with 0, 1, 2, so the classes are exhaustive"""
     pkg = ctx.pkg
+    shape0 = Form.atom(("idx", S("signal.shape"), Form.num(0)))
     for cls in CLASSES:
         init = pkg.find_method("typing", cls, "__init__")
-        # shape-equality guard
-        g = None
-        for ifn, test, excs in find_raise_guards(init):
-            s = src_of(test).replace(" ", "")
-            if s in ("signal.shape!=noise.shape", "noise.shape!=signal.shape"):
-                g = (ifn, excs)
-        if g is None:
-            ctx.violation("C01.4", init, init.node, f"{cls}.__init__: signal/noise shape guard", "no `signal.shape != noise.shape -> raise ValueError` guard")
+        base = {"noise": ["notnone", ("notinst", "str")], "signal": ("notinst", "str"), "dtype": None}
+        # shape-equality guard: mismatching shapes never construct an object
+        for ndim in (0, 1, 2):
+            ass = dict(base)
+            ass["signal.ndim"] = ndim
+            for sa, sb in ((7, 9), (7, 7)):
+                it = Interp(pkg, self_class=cls, assumptions=ass, valuation=[(S("signal.shape"), sa), (S("noise.shape"), sb), (S("signal.size"), 6), (shape0, 2)])
+                outs = it.run(init)
+                rets = [o for o in outs if o.kind == "return"]
+                if sa != sb:
+                    ok = not rets and bool(outs) and outs[-1].exc == "ValueError"
+                    ctx.check("C01.4", ok, init, (rets[0].node if rets else (outs[-1].node if outs else init.node)), f"{cls}.__init__: signal/noise shape guard [ndim={ndim}]", "shape mismatch -> ValueError",
+                              "signal and noise of different shapes are accepted" if rets else f"shape mismatch raises {outs[-1].exc if outs else None}, documented ValueError")
+                elif not (cls == "electrical_signal" and ndim == 2):
+                    ctx.check("C01.4", bool(rets), init, outs[-1].node if outs else init.node, f"{cls}.__init__: equal shapes accepted [ndim={ndim}]", "constructs", "signal and noise of equal shapes are rejected")
+        # layout normalisation applied identically to signal and noise
+        cases = []
+        if cls == "electrical_signal":
+            cases = [({"signal.ndim": 0}, []), ({"signal.ndim": 1}, [])]
         else:
-            ctx.check("C01.4", "ValueError" in g[1], init, g[0], f"{cls}.__init__: signal/noise shape guard", "shape mismatch -> ValueError", f"raises {g[1]}, documented ValueError")
-        # symmetric reshaping: every block that re-assigns `signal` from itself must do the same to noise under `noise is not None`
-        nblocks = 0
-        for n in body_nodes(init):
-            for blk in _blocks(n):
-                sig_assigns = [s for s in blk if isinstance(s, ast.Assign) and len(s.targets) == 1 and isinstance(s.targets[0], ast.Name)
-                               and s.targets[0].id == "signal" and "signal" in {x.id for x in ast.walk(s.value) if isinstance(x, ast.Name)}]
-                if g is not None and blk and blk[0].lineno < g[0].lineno:
-                    continue  # conversions before the shape guard (np.array / astype) are per-component already
-                for sa in sig_assigns:
-                    if src_of(sa.value).startswith("signal.astype"):
-                        continue
-                    nblocks += 1
-                    want = src_of(_rename(sa.value, "signal", "noise"))
-                    found = False
-                    for s2 in blk:
-                        if isinstance(s2, ast.If) and src_of(s2.test).replace(" ", "") == "noiseisnotNone":
-                            for s3 in s2.body:
-                                if isinstance(s3, ast.Assign) and src_of(s3.targets[0]) == "noise" and src_of(s3.value) == want:
-                                    found = True
-                    if found:
-                        ctx.holds("C01.4", init, sa, f"{cls}.__init__: `{src_of(sa)}` mirrored on noise", "same reshaping under `noise is not None`")
-                    else:
-                        ctx.violation("C01.4", init, sa, f"{cls}.__init__: `{src_of(sa)}` has no noise counterpart",
-                                      f"this branch reshapes `signal` but not `noise` (expected `if noise is not None: noise = {want}`): signal and noise end up with different shapes")
-        if nblocks == 0:
-            ctx.unknown("C01.4", init, init.node, f"{cls}.__init__ layout normalisation", "no reshaping assignments found")
+            for npol in (None, 1, 2):
+                cases.append(({"signal.ndim": 0, "n_pol": npol}, []))
+                cases.append(({"signal.ndim": 1, "n_pol": npol}, []))
+                for rows in (1, 2):
+                    cases.append(({"signal.ndim": 2, "n_pol": npol}, [(shape0, rows)]))
+        for extra, val in cases:
+            for noise in ("notnone", "none"):
+                ass = dict(base)
+                ass.update(extra)
+                ass["noise"] = ["notnone", ("notinst", "str")] if noise == "notnone" else None
+                it = Interp(pkg, self_class=cls, assumptions=ass, valuation=val + [(S("signal.size"), 6)])
+                outs = it.run(init)
+                rets = [o for o in outs if o.kind == "return"]
+                case = f"{cls}.__init__ layout [" + ", ".join(f"{k}={v}" for k, v in sorted(extra.items(), key=str)) + (f", shape[0]={val[0][1]}" if val else "") + f", noise {noise}]"
+                if not rets:
+                    # rejected layouts (e.g. 2 rows with n_pol=1 is a slice, never an error; electrical 2-D is an error) carry no obligation
+                    continue
+                lay = _stored_layout(it, cls) if len(rets) == 1 else None
+                if lay is None:
+                    ctx.unknown("C01.4", init, init.node, case, "stored signal/noise not identified on this path")
+                    continue
+                sig, noi, node = lay
+                if noise == "none":
+                    ctx.check("C01.4", isinstance(noi, Const) and noi.v is None, init, node, case, "noise stays None", f"noise becomes {noi!r} although none was given")
+                else:
+                    want = _mirror(sig)
+                    ctx.check("C01.4", vkey_eq(noi, want), init, node, f"{case}: signal -> {sig!r}"[:300], "noise reshaped identically",
+                              f"signal is laid out as {sig!r} but noise as {noi!r} (expected {want!r}): signal and noise end up with different shapes"[:400])
+
+
+def vkey_eq(a, b):
+    from ..forms import vkey
+    try:
+        return vkey(a) == vkey(b)
+    except Exception:
+        return a == b
 
 
 def _blocks(n):
@@ -275,21 +333,33 @@ def rule_slicing(ctx):
                     if not (isinstance(nz, Const) and nz.v is None):
                         idx_ok, why = False, "a noise component appears for a noise-free object"
                 ctx.check("C01.8", idx_ok, m, rets[0].node, case, "same index on signal and noise, last axis", why)
-    # copy
-    for cls in CLASSES:
+    # copy(n) is self[:n], n defaulting to the full length
+    FULL = SliceV(Const(None), Const(None), Const(None))
+    for cls, npol in (("electrical_signal", None), ("optical_signal", 1), ("optical_signal", 2)):
         m = pkg.find_method("typing", cls, "copy")
-        rets = [n for n in body_nodes(m) if isinstance(n, ast.Return)]
-        ok = len(rets) == 1 and src_of(rets[0].value).replace(" ", "") in ("self[:n]", "self[0:n]")
-        dflt = [n for n in body_nodes(m) if isinstance(n, ast.Assign) and src_of(n.targets[0]) == "n" and src_of(n.value).replace(" ", "") in ("self.len()", "len(self)")]
-        ctx.check("C01.8", ok and bool(dflt), m, rets[0] if rets else m.node, f"{cls}.copy(n)", "self[:n] with n defaulting to len()", "copy(n) is not self[:n] with n defaulting to the full length")
+        for nkind in ("none", "given"):
+            ass = {"self.noise": "notnone", "n": None if nkind == "none" else "notnone"}
+            if npol is not None:
+                ass["self.n_pol"] = npol
+            it = Interp(pkg, self_class=cls, assumptions=ass)
+            rets = [o for o in it.run(m) if o.kind == "return"]
+            case = f"{cls}.copy(n) [n_pol={npol}, n {nkind}]"
+            stop = mk_fn("siglen", [S("self.signal")]) if nkind == "none" else S("n")
+            sl = SliceV(Const(None), stop, Const(None))
+            sl0 = SliceV(Form.num(0), stop, Const(None))
+            wants = [TupleV([FULL, x]) for x in (sl, sl0)] if npol == 2 else [sl, sl0]
+            ok = len(rets) == 1 and isinstance(rets[0].value, ObjV) and rets[0].value.cls == cls
+            if ok:
+                o = rets[0].value
+                ok = any(vkey_eq(o.fields.get("signal"), Form.atom(("idx", S("self.signal"), w))) and vkey_eq(o.fields.get("noise"), Form.atom(("idx", S("self.noise"), w))) for w in wants)
+            ctx.check("C01.8", ok, m, rets[0].node if rets else m.node, case, "self[:n] with n defaulting to len()", "copy(n) is not self[:n] with n defaulting to the full length")
     m = pkg.find_method("typing", "electrical_signal", "len")
-    it = Interp(pkg, self_class="electrical_signal", no_inline=("len",))
-    it.inline = True
-    outs = Interp(pkg, self_class="electrical_signal").run(m)
-    rets = [o for o in outs if o.kind == "return"]
-    ok = len(rets) == 2 and any(o.conds and o.conds[-1][1] is True and "ndim" in o.conds[-1][0] and o.value == Form.atom(("idx", S("self.signal.shape"), Form.num(1))) for o in rets) \
-        and any(o.conds and o.conds[-1][1] is False and o.value == S("self.signal.size") for o in rets)
-    ctx.check("C01.8", ok, m, m.node, "electrical_signal.len()", "shape[1] for two-dimensional data, size otherwise", "len() is not samples-per-polarisation (shape[1] if ndim>1 else size)")
+    for nd in (0, 1, 2):
+        rets = [o for o in Interp(pkg, self_class="electrical_signal", assumptions={"self.signal.ndim": nd}).run(m) if o.kind == "return"]
+        want = Form.atom(("idx", S("self.signal.shape"), Form.num(1))) if nd == 2 else S("self.signal.size")
+        alt = Form.atom(("idx", S("self.signal.shape"), Form.num(-1))) if nd >= 1 else want
+        ok = len(rets) == 1 and isinstance(rets[0].value, Form) and rets[0].value in (want, alt)
+        ctx.check("C01.8", ok, m, rets[0].node if rets else m.node, f"electrical_signal.len() [ndim={nd}]", "shape[1] for two-dimensional data, size otherwise", "len() is not samples-per-polarisation (shape[1] if ndim>1 else size)")
 
 
 def run(ctx):
